@@ -119,12 +119,13 @@ class DependencyManager:
 
         The way dependencies are interpreted is dependent on the key type.
         """
-        ret = self.get_optional_dependency(key)
-
-        if ret is None:
+        if not key.empty_valid and key not in self.dependencies:
+            if key.lock_on_get:
+                self.locked_dependencies.add(key)
             raise KeyError(f"Dependency {key} not provided")
 
-        return ret
+        # `None` can be a dependency (or a default value) like any other value
+        return self.get_optional_dependency(key)  # type: ignore
 
     def get_optional_dependency[U](self, key: DependencyKey[Any, U]) -> Optional[U]:
         """Gets the dependency for a key, if it exists.
